@@ -71,6 +71,13 @@ def cases(seed, k, tier):
             sc = copy.deepcopy(base)
             sc["fault"] = {"kind": "cut", "at": c, "end": end}
             yield sc
+    if base["response"]["framing"] == "cl":
+        for inj in (False, True):
+            sc = copy.deepcopy(base)
+            sc["fault"] = {"kind": "huge_cl"}
+            if inj:
+                sc["pyopenssl"] = True
+            yield sc
     for a, b in built["size_lines"]:
         ndig = _size_digits(wire, a)
         sc = copy.deepcopy(base)
@@ -269,6 +276,12 @@ def classify(sc, built_full):
         if not ok:
             return "must_raise", "undecodable", bytes(b), end
         return "either", "corrupt_but_decodable", bytes(b), end
+    if f["kind"] == "huge_cl":
+        # the announced length does not fit a 32-bit int; the body that arrives is the short one, then EOF
+        import re
+
+        head = re.sub(rb"(?i)(content-length: *)(\d+)", lambda m: m.group(1) + str(int(m.group(2)) + 2**31).encode(), wire[:hl], count=1)
+        return "must_raise", "cl", head + wire[hl:], "eof"
     if f["kind"] == "coded_trunc":
         spec = dict(r)
         spec["coded_keep"] = f["keep"]
@@ -313,6 +326,19 @@ def _dechunk_strict(data: bytes):
 
 
 def run(sc: dict) -> Result:
+    if sc.get("pyopenssl"):
+        # urllib3.contrib.pyopenssl injected for the duration of the run (the flag alone changes how large reads are carried out,
+        # also on plain-http responses)
+        from simkit import ossl
+
+        with ossl.injected():
+            res = _run(sc)
+        res.probes["pyopenssl_injected"] += 1
+        return res
+    return _run(sc)
+
+
+def _run(sc: dict) -> Result:
     from urllib3.exceptions import DecodeError, HTTPError, ProtocolError
 
     res = Result()
